@@ -276,7 +276,76 @@ def slot_index(rng, k=0):
     return 'scen:slotidx', u.lines(), ops, meta_of(ops, u.attr_ids(), setup, classes)
 
 
-SCENARIOS = [cap_moves, resist_moves, chain_over_projection, burst_charge, buff_tie, retarget_reload, slot_index]
+def propulsion(rng, k=0):
+    """python modifier of propulsion modules: the velocity boost depends on ship mass and on two attributes
+    of the module; each of them changes while the value is cached"""
+    A = AttrId
+    K = 1000
+    u = U()
+    u.u.custom = True
+    for a in (A.mass, A.max_velocity, A.signature_radius, A.speed_factor, A.speed_boost_factor, A.mass_addition,
+              A.signature_radius_bonus, K):
+        u.attr(int(a))
+    eff = int([EffectId.module_bonus_afterburner, EffectId.module_bonus_microwarpdrive][k % 2])
+    u.effect(eff, EC.active)
+    tgt = [A.mass, A.speed_factor, A.speed_boost_factor][(k // 2) % 3]
+    dom = D.ship
+    u.effect(2001, EC.passive, [U.mod(F.item if tgt == A.mass else F.domain, dom, int(tgt), OP.post_mul, K)])
+    u.type(3100, 50, int(TC.ship), {int(A.mass): rng.choice([1000, 2048]), int(A.max_velocity): 100,
+                                    int(A.signature_radius): 64})
+    u.type(3250, 51, int(TC.module), {int(A.speed_factor): rng.choice([100, 128]), int(A.speed_boost_factor): 1024,
+                                      int(A.mass_addition): 512, int(A.signature_radius_bonus): 400},
+           [eff], default=eff)
+    u.type(3500, 52, int(TC.implant), {K: rng.choice([2, Fraction(1, 2)])}, [2001])
+    ops = base_world(2) + ['new 10 ship 3100 1 0', 'new 11 ship 3100 1 0', 'new 12 modmid 3250 3 0',
+                           'new 13 modmid 3250 1 0', 'new 20 implant 3500 1 0', 'slot 1 ship 10', 'slot 2 ship 11']
+    setup = len(ops)
+    V = int(A.max_velocity)
+    ops += ['rappend 1 mid 12', 'get 10 %d' % V, 'sadd 1 implants 20', 'get 10 %d' % V, 'rappend 2 mid 13',
+            'state 13 3', 'get 11 %d' % V, 'srm 1 implants 20', 'get 10 %d' % V, 'state 12 2', 'get 10 %d' % V,
+            'slot 1 ship -', 'state 12 3', 'slot 1 ship 10', 'get 10 %d' % V, 'sadd 2 implants 20', 'get 11 %d' % V]
+    return 'scen:propulsion', u.lines(), ops, meta_of(ops, u.attr_ids(), setup)
+
+
+def ancillary(rng, k=0):
+    """python modifier of ancillary armor repairers on two fits of one solar system: nanite paste is loaded
+    and unloaded while the repair amount is cached; the charged multiplier changes"""
+    A = AttrId
+    K = 1000
+    PASTE = int(TypeId.nanite_repair_paste)
+    u = U()
+    u.u.custom = True
+    for a in (A.armor_dmg_amount, A.charged_armor_dmg_mult, K):
+        u.attr(int(a))
+    eff = int(EffectId.fueled_armor_repair)
+    u.effect(eff, EC.active)
+    u.effect(2001, EC.passive, [U.mod(F.domain, D.ship, int(A.charged_armor_dmg_mult), OP.post_mul, K)])
+    u.type(3100, 50, int(TC.ship), {})
+    u.type(3260, 51, int(TC.module), {int(A.armor_dmg_amount): 50, int(A.charged_armor_dmg_mult): 3}, [eff], default=eff)
+    u.type(PASTE, 52, int(TC.charge), {})
+    u.type(3300, 52, int(TC.charge), {})
+    u.type(3500, 53, int(TC.implant), {K: 2}, [2001])
+    ops = base_world(2) + ['new 10 ship 3100 1 0', 'new 11 ship 3100 1 0', 'new 12 modlow 3260 %d 0' % rng.choice([1, 3]),
+                           'new 13 modlow 3260 %d 0' % rng.choice([1, 3]), 'new 30 charge %d 1 0' % PASTE,
+                           'new 31 charge %d 1 0' % PASTE, 'new 32 charge 3300 1 0', 'new 20 implant 3500 1 0',
+                           'slot 1 ship 10', 'slot 2 ship 11']
+    setup = len(ops)
+    R = int(A.armor_dmg_amount)
+    first, second = (12, 13) if k % 2 == 0 else (13, 12)
+    f1, f2 = (1, 2) if k % 2 == 0 else (2, 1)
+    c1, c2 = 30, 31
+    ops += ['rappend %d low %d' % (f1, first), 'rappend %d low %d' % (f2, second),
+            'get %d %d' % (first, R), 'get %d %d' % (second, R),
+            'charge %d %d' % (second, c2), 'get %d %d' % (second, R),        # the fit that came second
+            'charge %d %d' % (first, c1), 'get %d %d' % (first, R),
+            'sadd %d implants 20' % f2, 'get %d %d' % (second, R),
+            'charge %d 32' % second, 'get %d %d' % (second, R), 'charge %d -' % first, 'get %d %d' % (first, R),
+            'rremove %d low item %d' % (f1, first), 'charge %d %d' % (second, c1), 'get %d %d' % (second, R)]
+    return 'scen:ancillary', u.lines(), ops, meta_of(ops, u.attr_ids(), setup)
+
+
+SCENARIOS = [cap_moves, resist_moves, chain_over_projection, burst_charge, buff_tie, retarget_reload, slot_index,
+             propulsion, ancillary]
 
 
 def scenarios(rng, tier):
